@@ -7,7 +7,7 @@ import os
 import random
 
 from .. import tlc, wire
-from ..recvworld import FakeSock
+from ..recvworld import FakeSock, Hang
 
 
 def utf8_encode(s):
@@ -56,8 +56,8 @@ class KeySource:
 def one_call(api, op, fin, payload, keykind, trace_on, rng, urandom_draws, write_cap=None):
     try:
         return _one_call(api, op, fin, payload, keykind, trace_on, rng, urandom_draws, write_cap)
-    except Exception as e:
-        return {"api": api, "fin": fin, "op": op, "n": -1, "raised": "%s: %s" % (type(e).__name__, str(e)[:80]),
+    except (Exception, Hang) as e:      # (Hang: the call went on writing far beyond any frame it could have been asked for)
+        return {"api": api, "fin": fin, "op": op, "n": -1, "raised": "%s: %s" % (type(e).__name__, str(e)[:80] or "the call kept writing to the transport without end"),
                 "ptype": type(payload).__name__, "keyKind": keykind, "trace": bool(trace_on), "payload_repr": repr(payload)[:80]}
 
 
@@ -89,6 +89,41 @@ def _one_call(api, op, fin, payload, keykind, trace_on, rng, urandom_draws, writ
     if not getattr(ws, "connected", False):
         ws.sock = fake
         ws.connected = True
+    history = ""
+    if api.startswith("after_broken_"):
+        # the object has a history: a frame of an earlier connection that the transport accepted only in part before a send
+        # timed out; that connection then ended (end of stream seen by a read / close() / nothing at all) and the same object
+        # was connected again - the frame judged is the first one written on the new connection
+        import socket as _pysocket
+        history = api[len("after_broken_"):]
+        orig, cnt = fake.send, [0]
+
+        def breaking_send(data):
+            cnt[0] += 1
+            if cnt[0] > 1:
+                raise _pysocket.timeout("timed out")
+            return orig(bytes(data)[:max(1, len(data) // 3)])
+        fake.send = breaking_send
+        try:
+            ws.send_binary(rng.randbytes(rng.choice([40, 5000, 200000])))
+        except Exception:      # noqa   (the timeout of that earlier send)
+            pass
+        fake.send = orig
+        if history == "eof":
+            try:
+                ws.recv()
+            except Exception:      # noqa   (connection lost)
+                pass
+        elif history == "close":
+            ws.close(timeout=0)
+        sc = dict(sc, via_connect=True)
+        fake = FakeSock(sc, log.append)
+        ws.connect("ws://example.test/again", socket=fake)
+        fake.frame_phase = True
+        fake.sent.clear()
+        if ks is not None:
+            ks.draws.clear()
+        api = "send_binary"
     foreign0 = sum(k.total for k in ALL_SOURCES if k is not ks)
     n0 = len(urandom_draws)
     nullh = None
@@ -163,6 +198,8 @@ def _one_call(api, op, fin, payload, keykind, trace_on, rng, urandom_draws, writ
           "foreignDraws": sum(k.total for k in ALL_SOURCES if k is not ks) - foreign0,
           "draws": draws, "keyKind": keykind, "writes": len(fake.sent), "trace": bool(trace_on),
           "ptype": type(payload).__name__}
+    if history:
+        ev["history"] = "earlier connection broken inside a frame, ended by " + history
     if n <= 512:
         ev.update({"payload": list(expect), "wire": list(region), "samples": [], "bulkOk": True})
     else:
@@ -196,6 +233,10 @@ def gen_calls(rng, tier):
     for api, op, pl in (("ping", 9, b""), ("ping", 9, b"x"), ("pong", 10, b""), ("send_binary", 2, b""), ("send_binary", 2, b"ab"), ("close", 8, (1000, b""))):
         for kk in ("bytes", "default", "str", "default", "bytes"):
             calls.append((api, op, 1, pl, kk, False))
+    for mode in ("eof", "close", "direct"):
+        for n in (0, 5, 126, 70000):
+            for kk in kinds:
+                calls.append(("after_broken_" + mode, 2, 1, rng.randbytes(n), kk, False))
     for kk in ("zero", "counter", "ones"):
         for n in (0, 1, 5, 125, 126, 300, 65536):
             for api in ("send_binary", "send_frame", "ping", "resend_frame"):
